@@ -27,7 +27,7 @@ var c02BodyCnt = map[c02Key]int64{}
 
 const (
 	c02OneBodyIf = 2 // 如果真 / 如果假
-	c02Loops     = 6 // 每当, 遍历 x5
+	c02Loops     = 7 // 每当 (counter condition), 遍历 x5, 每当 (bare flag condition)
 	c02TwoBodyIf = 2
 	c02ThreeBody = 4
 )
@@ -133,6 +133,9 @@ func c02UnrankStmt(m, d int, loop bool, idx int64) *c02Node {
 		body := c02UnrankBody(m-1, d-1, true, idx/c02Loops)
 		if which == 0 {
 			return &c02Node{kind: "While", bodies: [][]*c02Node{body}}
+		}
+		if which == 6 {
+			return &c02Node{kind: "WhileFlag", bodies: [][]*c02Node{body}}
 		}
 		return &c02Node{kind: "Iter", iter: which - 1, bodies: [][]*c02Node{body}}
 	}
@@ -249,6 +252,22 @@ func (b *c02Builder) stmt(n *c02Node) []zn.Stmt {
 			zn.Decl{Pairs: []zn.DeclPair{{Names: []string{cn}, Val: zn.Num{Lit: "0"}}}},
 			zn.While{Cond: zn.Bin{Op: "<", L: zn.Var{Name: cn}, R: zn.Num{Lit: "2"}}, Body: body},
 		}
+	case "WhileFlag":
+		// the whole condition is a flag variable; the body clears it in its second pass: the
+		// condition is re-tested (re-read) before every pass
+		id := b.id()
+		fl, cn := fmt.Sprintf("续%d", id), fmt.Sprintf("N%d", id)
+		body := []zn.Stmt{zn.ExprStmt{E: zn.Assign{Target: zn.Var{Name: cn}, Val: zn.Bin{Op: "+", L: zn.Var{Name: cn}, R: zn.Num{Lit: "1"}}}}}
+		body = append(body, b.trace(zn.Var{Name: cn}))
+		body = append(body, zn.If{Cond: zn.Bin{Op: ">=", L: zn.Var{Name: cn}, R: zn.Num{Lit: "2"}}, Then: []zn.Stmt{zn.ExprStmt{E: zn.Assign{Target: zn.Var{Name: fl}, Val: zn.Var{Name: "假"}}}}})
+		// a guard so that a loop that misses the change still ends (and shows in the trace)
+		body = append(body, zn.If{Cond: zn.Bin{Op: ">=", L: zn.Var{Name: cn}, R: zn.Num{Lit: "5"}}, Then: []zn.Stmt{zn.Break{}}})
+		body = append(body, b.body(n.bodies[0], true)...)
+		return []zn.Stmt{
+			zn.Decl{Pairs: []zn.DeclPair{{Names: []string{cn}, Val: zn.Num{Lit: "0"}}}},
+			zn.Decl{Pairs: []zn.DeclPair{{Names: []string{fl}, Val: zn.Var{Name: "真"}}}},
+			zn.While{Cond: zn.Var{Name: fl}, Body: body},
+		}
 	case "Iter":
 		id := b.id()
 		kv, vv := fmt.Sprintf("K%d", id), fmt.Sprintf("V%d", id)
@@ -360,7 +379,7 @@ func init() {
 	mc.Register(&mc.Check{
 		ID:    "C02",
 		Level: "exploration",
-		Rule:  "E1 exhaustive by rank/unrank: every statement tree with <= k statement nodes and nesting <= 3 over {输出, expression, 结束循环, 继续循环 (inside loops only), 如果 (1/2/3 branches, every truth assignment), 每当 (2 passes via a dedicated counter), 遍历 over [10,20] with 1/2/0 variables, over a dictionary with 2 variables, over an empty list}; every expression statement is followed by a method definition (hoisted, so the expression stays final); the two-variable list loop changes its index variable in place (自增) and traces it; a trace statement is planted before every statement and at the end of every block; each tree is run as program body and as method body. Distinct by construction; non-trivial = contains at least one compound statement.",
+		Rule:  "E1 exhaustive by rank/unrank: every statement tree with <= k statement nodes and nesting <= 3 over {输出, expression, 结束循环, 继续循环 (inside loops only), 如果 (1/2/3 branches, every truth assignment), 每当 (2 passes via a dedicated counter; 2 passes via a bare flag variable that the body clears), 遍历 over [10,20] with 1/2/0 variables, over a dictionary with 2 variables, over an empty list}; every expression statement is followed by a method definition (hoisted, so the expression stays final); the two-variable list loop changes its index variable in place (自增) and traces it; a trace statement is planted before every statement and at the end of every block; each tree is run as program body and as method body. Distinct by construction; non-trivial = contains at least one compound statement.",
 		Assumptions: []string{
 			"reference interpreter written from manual ch.7/8 is the oracle (result + ordered trace)",
 			"the program result is compared only when the statement defines it (an 输出 ran, or the last top-level statement is an expression)",
